@@ -10,12 +10,15 @@ props="$*"; [ -z "$props" ] && props=$(ls seeded | sed 's/-.*//' | sort -u)
 mkdir -p out/seedreg
 one_prop() {
   p="$1"
-  for d in seeded/$p-*; do
+  for d in seeded/*; do
+    # a seed caught by ANOTHER property's check names that property in meta.json (check_property); it runs with that property's seeds
+    cp=$(python3 -c "import json,sys;print(json.load(open('$d/meta.json')).get('check_property','$(basename $d | sed 's/-.*//')'))")
+    [ "$cp" = "$p" ] || continue
     id=$(basename "$d"); low=$(echo "$id" | tr 'A-Z' 'a-z'); wt="/tmp/rs-$low"
     git -C /repo worktree remove --force "$wt" >/dev/null 2>&1
     git -C /repo worktree add --detach "$wt" HEAD >/dev/null 2>&1
     if ! git -C "$wt" apply "$PWD/$d/patch.diff" 2>/dev/null; then echo "$id PATCH-DOES-NOT-APPLY" ; git -C /repo worktree remove --force "$wt"; continue; fi
-    VERIF_REPO="$wt" tools/devcheck.sh "$p" quick > "out/seedreg/$id.log" 2>&1; rc=$?
+    VERIF_REPO="$wt" tools/devcheck.sh "$cp" quick > "out/seedreg/$id.log" 2>&1; rc=$?
     n=$(grep -c "^VIOLATION" "out/seedreg/$id.log")
     sigs=$(grep "signature=" "out/seedreg/$id.log" | sed 's/.*signature=//' | awk '{print $1}' | sort -u | head -3 | tr '\n' ' ')
     if [ "$rc" = "1" ] && [ "$n" -gt 0 ]; then echo "$id CAUGHT violations=$n e.g. $sigs"; else echo "$id MISSED exit=$rc"; fi
